@@ -199,6 +199,7 @@ def run(ctx):
             tone = np.exp(2j * np.pi * (jb[i] - P // 2) * n / P)
             data[(slice(None), i) + (Ellipsis,)] = tone.reshape((L,) + (1,) * (len(ss) - 1))
         data = (data + noise).astype(np.complex64 if single else np.complex128)
+        data0 = data.copy()
         kw = dict(sample_rate=sr_hz * u.Hz, center_freq=cf_hz * u.Hz, freq_align=align, start_time=start)
         if cls == 'DualPolarizationSignal':
             kw['pol_type'] = 'linear'
@@ -251,11 +252,20 @@ def run(ctx):
                     break
         if bad:
             continue
-        # ISTFT round trip
+        # ISTFT round trip ("ISTFT of the STFT returns the original samples": of the STFT signal as held by the caller, however
+        # often it is inverted -- so the STFT signal must come out of istft unchanged and a second inversion must agree)
+        s_before = np.array(np.asarray(s.data), copy=True)
         try:
             r = pb.contrib.istft(s, nperseg=P)
+            r2 = pb.contrib.istft(s, nperseg=P)
         except Exception as e:
             ctx.fail('istft_raised', inp, impl=repr(e))
+            continue
+        if not np.array_equal(np.asarray(s.data), s_before) or not np.array_equal(np.asarray(z.data), data0):
+            ctx.fail('stft_or_istft_modified_its_input', inp)
+            continue
+        if r2.shape != r.shape or not np.array_equal(np.asarray(r2.data), np.asarray(r.data)):
+            ctx.fail('second_istft_of_the_same_stft_differs', inp)
             continue
         rf = [Fr(float(v)) for v in r.channel_freqs.to_value(u.Hz)]
         items.append(f'chk_istft {qlit(Fr(cf_hz))} {qlit(Fr(sr_hz))} {nchan} {eff_align} {P} {qlit(tol)} {r.nchan} {qlit(X.hz(r.chan_bw))} {listlit(rf, qlit)}')
